@@ -84,7 +84,20 @@ pub fn pool(seed: u64) -> Vec<Call> {
     // process keeps per type, per name or per stored version between calls shows here.
     let b = crate::props::derived::batch();
     let mut groups: Vec<Vec<std::sync::Arc<vmodel::Decl>>> = Vec::new();
-    groups.extend(b.histories.iter().enumerate().filter(|(h, g)| g.len() >= 3 && !b.dedup_histories[*h] && crate::props::derived::group_ok(g)).map(|(_, g)| g.clone()).take(3));
+    // the histories with most to remember between calls first: an optional field that is later removed, a field made
+    // optional, fields added (so that fields live in different chunks)
+    let score = |g: &Vec<std::sync::Arc<vmodel::Decl>>| -> usize {
+        let last = match &g.last().unwrap().body {
+            vmodel::DeclBody::Struct(r) => r.clone(),
+            _ => return 0,
+        };
+        let removed_optional = last.steps.iter().any(|s| matches!(s, vmodel::Step::Removed { name } | vmodel::Step::MadeTransient { name } if last.steps.iter().any(|t| matches!(t, vmodel::Step::MadeOptional { name: n } if n == name))));
+        let kinds = [last.steps.iter().any(|s| matches!(s, vmodel::Step::Added { .. })), last.steps.iter().any(|s| matches!(s, vmodel::Step::MadeOptional { .. })), last.steps.iter().any(|s| matches!(s, vmodel::Step::Removed { .. } | vmodel::Step::MadeTransient { .. }))];
+        4 * removed_optional as usize + kinds.iter().filter(|k| **k).count() + (last.fields.len() >= 3) as usize
+    };
+    let mut cands: Vec<_> = b.histories.iter().enumerate().filter(|(h, g)| g.len() >= 3 && !b.dedup_histories[*h] && crate::props::derived::group_ok(g)).map(|(_, g)| g.clone()).collect();
+    cands.sort_by_key(|g| std::cmp::Reverse(score(g)));
+    groups.extend(cands.into_iter().take(5));
     groups.extend(b.tuple_histories.iter().filter(|g| g.len() >= 3 && crate::props::derived::group_ok(g)).take(2).cloned());
     for pair in [["Twin", "TwinOther"], ["TwinE", "TwinEOther"]] {
         let g: Vec<_> = b.specials.iter().filter(|d| pair.contains(&d.name.as_str())).cloned().collect();
@@ -151,7 +164,20 @@ pub fn pool(seed: u64) -> Vec<Call> {
         };
         Call::Dec { ty, bytes }
     });
-    let strat = prop_oneof![4 => enc, 4 => dec, 2 => stream, 1 => graph, 6 => fam, 3 => zip, 1 => big, 2 => dangling];
+    // time zones: the same few zones again and again, correctly spelled and with one letter in the other case
+    let tz = (prop::sample::select(vec!["Europe/Budapest", "UTC", "Asia/Tokyo"]), 0u8..4, any::<u16>(), any::<bool>()).prop_map(|(z, how, sel, dt)| {
+        let (ty, val) = if dt { (Ty::DtTz, vmodel::Val::Tuple(vec![vmodel::Val::Date(2024, 2, 29), vmodel::Val::Time(12, 30, 15, 5), vmodel::Val::Tz(z.to_string())])) } else { (Ty::Tz, vmodel::Val::Tz(z.to_string())) };
+        let mut bytes = vmodel::refcodec::ref_encode(&ty, &val).map(|f| f.bytes).unwrap_or_default();
+        if how == 1 {
+            // flip the case of one letter of the zone name
+            let start = bytes.len() - z.len();
+            let letters: Vec<usize> = (start..bytes.len()).filter(|i| bytes[*i].is_ascii_alphabetic()).collect();
+            let k = letters[vmodel::gen::pick(sel, letters.len())];
+            bytes[k] ^= 0x20;
+        }
+        Call::Dec { ty, bytes }
+    });
+    let strat = prop_oneof![4 => enc, 4 => dec, 2 => stream, 1 => graph, 6 => fam, 3 => zip, 1 => big, 2 => dangling, 2 => tz];
     let mut r = runner(tag_seed(derive_seed(seed, "C18-pool", 0, 0), 0));
     (0..POOL).map(|_| strat.new_tree(&mut r).expect("pool").current()).collect()
 }
@@ -219,7 +245,7 @@ pub fn execute(c: &Call) -> String {
             }
         }
         Call::Graph(g) => {
-            let case = crate::props::graphs::GraphCase { g: g.clone(), tracked_header: g.labels.len() % 2 == 0, tagged: g.labels.len() % 3 == 0, fault_sel: 3, fault_kind: 0 };
+            let case = crate::props::graphs::GraphCase { g: g.clone(), tracked_header: g.labels.len() % 2 == 0, tagged: g.labels.len() % 3 == 0, sentinel: g.labels.len() % 4 == 1, fault_sel: 3, fault_kind: 0 };
             match crate::props::graphs::check_graph(&case, &mut Acc::new(), false) {
                 Verdict::Fail(e) => format!("graph-fail {e}"),
                 _ => "graph-ok".to_string(),
